@@ -81,6 +81,8 @@ class PathCtx(object):
         self.path_budget_s = path_budget_s
         self.realized = 0
         self.allow_realize = False
+        self.message_floats = False     # float() for message formatting yields a representative value
+        self.message_float_count = 0
         self.branch_unknown = 0
         self.twin_needed = twin_needed  # set of labels still lacking a sat twin, or None=all
         self.defs = 0
